@@ -997,6 +997,7 @@ func TestVerifC22(t *testing.T) {
 	rep.Bounds["grid_d_steps"] = stepsD
 	rep.Bounds["grid_d_profiles"] = len(profilesD)
 	var cappedD bool
+	startD := time.Now() // for the log line only
 	c22Parallel(len(unitsD), func(i int) {
 		if mc.Expired() {
 			mu.Lock()
@@ -1029,6 +1030,7 @@ func TestVerifC22(t *testing.T) {
 		rep.Cap("wall_budget")
 	}
 	gridD := total.calls - gridA - gridB - gridC
+	wallD := time.Since(startD)
 
 	// ---------------- the rounding primitives themselves
 	var prim int64
@@ -1102,6 +1104,6 @@ func TestVerifC22(t *testing.T) {
 	if err := rep.Write(); err != nil {
 		t.Fatal(err)
 	}
-	t.Logf("C22 data_model: calls A=%d B=%d C=%d D=%d prim=%d points=%d outcomes=%d kinds=%v violations=%d",
-		gridA, gridB, gridC, gridD, prim, total.points, len(total.outcomes), total.kinds, rep.NumViolations())
+	t.Logf("C22 data_model: calls A=%d B=%d C=%d D=%d prim=%d points=%d outcomes=%d kinds=%v violations=%d gridD_wall=%v",
+		gridA, gridB, gridC, gridD, prim, total.points, len(total.outcomes), total.kinds, rep.NumViolations(), wallD)
 }
